@@ -33,7 +33,7 @@ ASSUMPTIONS = ["import-time side effects are represented by creating a sentinel 
                "a crash of the Python process itself is out of scope; 'interruption' is KeyboardInterrupt / SystemExit raised by the imported code"]
 MANIFEST = {
     "category": "fault_enumeration",
-    "text": "Exhaustive enumeration of (package shape x every loader option vector that excludes inspection x API/CLI) with sentinel-based detection of any execution, and of every placement of a fault (8 kinds: import-time exception / missing dependency / exit / interrupt, sys.path re-bound or mutated by the imported code, exit and missing dependency raised lazily while members are walked; x every module position, pairs in quick, triples in thorough; explicit and default search paths), plus the inspection agent called directly and a loader reused after its inspection switches were turned off under allowed/forced inspection, checking sys.modules, sys.path identity and contents, and the escaping exception family on the real loader/importer.",
+    "text": "Exhaustive enumeration of (package shape x every loader option vector that excludes inspection x API/CLI) with sentinel-based detection of any execution, and of every placement of a fault (8 kinds: import-time exception / missing dependency / exit / interrupt, sys.path re-bound or mutated by the imported code, exit and missing dependency raised lazily while members are walked; x every module position, pairs in quick, triples in thorough; explicit and default search paths), plus the inspection agent called directly and a loader reused after its inspection switches were turned off under allowed/forced inspection, checking sys.modules, sys.path identity and contents, and the escaping exception family on the real loader/importer. Shapes include folders without __init__ inside a regular package.",
     "note": "Complete for the 10 shapes, the 192 option vectors and the fault placements stated; process crashes are out of scope.",
     "technique": "fault enumeration: exhaustive option vectors and fault placements (deviation-bounded) on the real loader and importer with sentinel/side-effect oracles",
 }
